@@ -232,9 +232,15 @@ static Case gen_history(vh::Rng& r, const std::vector<std::string>& pool, bool t
   c.push_back(in);
   if (info.relative || r.chance(1, 4)) c.push_back(r.chance(1, 8) ? gen::url(r) : r.pick(gen::base_pool())); else c.push_back("\x01NULL");
   size_t n = r.chance(1, 5) ? 0 : 1 + r.below(thorough ? 40 : 12);
+  // the host the start URL has (if any), so that host setters can be fed another spelling of the very same host
+  std::string start_host;
+  { ada::result<ada::url_aggregator> su = vh::is_null_field(c[2]) ? ada::parse<ada::url_aggregator>(c[1]) : [&]() { auto b = ada::parse<ada::url_aggregator>(c[2]); return b ? ada::parse<ada::url_aggregator>(c[1], &*b) : b; }();
+    if (su) start_host = std::string(su->get_hostname()); }
   for (size_t i = 0; i < n; i++) {
     unsigned w = (unsigned)r.below(100);
-    if (w < 80) { int op = (int)r.below(10); if (op == 0 && r.chance(2, 3)) op = 1 + (int)r.below(9); c.push_back(std::string(1, char('a' + op))); c.push_back(gen::setter_value(r, op)); }
+    if (w < 80) { int op = (int)r.below(10); if (op == 0 && r.chance(2, 3)) op = 1 + (int)r.below(9); c.push_back(std::string(1, char('a' + op)));
+      if ((op == 4 || op == 5) && !start_host.empty() && r.chance(1, 4)) { std::string v = gen::respell_host(r, start_host); if (op == 4 && r.chance(1, 3)) v += gen::port(r); c.push_back(v); }
+      else c.push_back(gen::setter_value(r, op)); }
     else if (w < 86) { int op = 10 + (int)r.below(3); c.push_back(std::string(1, char('a' + op))); c.push_back(""); }
     else if (w < 92) { c.push_back("P"); c.push_back(r.chance(1, 3) ? gen::url(r) : gen::segment(r) + gen::path(r, true) + (r.coin() ? "?" + gen::qf_text(r) : "")); }
     else if (w < 95) { c.push_back("C"); c.push_back(""); }
